@@ -191,6 +191,7 @@ Step ==
                         <<"C09", e.maxw # e.n /\ ~(multi /\ e.shutdown), "C09: the returned executor does not have the requested max_workers">>,
                         <<"C10", e.same /\ e.nbefore > 0 /\ e.nproc # e.n /\ ~hasTmo /\ ~multi /\ ~crashed, "C10: resize returned without the requested number of workers">>,
                         <<"C10", e.same /\ e.nproc > e.n /\ ~(multi /\ e.shutdown), "C10: resize returned with more workers than requested">>,
+                        <<"C09", e.same /\ e.nproc > e.n /\ ~(multi /\ e.shutdown), "C09: the returned executor has more workers than requested">>,
                         <<"C10", e.same /\ ~hasTmo /\ ~multi /\ ~crashed /\ e.nbefore >= tmoInCall
                                  /\ e.kept < (IF e.nbefore - tmoInCall < e.n THEN e.nbefore - tmoInCall ELSE e.n),
                                  "C10: resize restarted worker processes it should have kept">>,
@@ -200,8 +201,8 @@ Step ==
        [] e.ev = "call_exc" ->
             \* an API call (get_reusable_executor, shutdown, interpreter exit hook, map) raised instead of returning
             /\ UNCHANGED <<kindOf, started, finished, resolved, cancelled, cancelling, running, live, crashed, crashedSettled, brokenSeen, shutdownAt, shutRet, exited, deleted, timeouts, maxw, hasTmo, multi, inCalls, tmoInCall, liveAtCall, subAfterShut>>
-            /\ Check(<< <<"C09", e.kind = "reuse" /\ ~multi, "C09: get_reusable_executor raised instead of returning an executor">>,
-                        <<"C10", e.kind = "reuse" /\ ~multi, "C10: the resize call raised instead of returning with the requested number of workers">>,
+            /\ Check(<< <<"C09", e.kind = "reuse" /\ ~multi /\ ~e.warn, "C09: get_reusable_executor raised instead of returning an executor">>,
+                        <<"C10", e.kind = "reuse" /\ ~multi /\ ~e.warn, "C10: the resize call raised instead of returning with the requested number of workers">>,
                         <<"C05", e.kind = "shutdown" /\ ~Disturbed, "C05: shutdown() raised during a graceful run">>,
                         <<"C06", e.kind = "shutdown", "C06: shutdown() raised">>,
                         <<"C01", e.kind \in {"shutdown", "exit"} /\ ~Disturbed, "C01: shutdown / the interpreter exit hook raised">> >>)
